@@ -105,14 +105,22 @@ func Run(w *sim.World, opt Options) *Outcome {
 		wd.FaultBudget = 1 + w.Choose(sim.KCfg, 6)
 		w.Probe("env_refusals_enabled")
 	}
-	r := envsys.NewRaft(wd, n, c, explore, maxFail, buf, !opt.BagNetwork, strings)
+	// one more client, idle until the final-read phase: it has no request of the main phase
+	// pending (a client stuck behind a crashed or cut-off server would delay the final reads)
+	reader := 0
+	nClients := c
+	if !opt.NoFinalReads {
+		nClients = c + 1
+		reader = c + 1
+	}
+	r := envsys.NewRaft(wd, n, nClients, explore, maxFail, buf, !opt.BagNetwork, strings)
 	r.CoinP0 = []float64{0.5, 0.8, 0.95}[w.Choose(sim.KCfg, 3)]
 	out.R = r
 	out.Desc = fmt.Sprintf("servers=%d clients=%d exploreFail=%v maxFail=%d buffer=%d ops/client=%d keys=%v coinP0=%.2f fifo=%v", n, c, explore, maxFail, buf, nOps, keys, r.CoinP0, !opt.BagNetwork)
 	w.Event("cfg %s", out.Desc)
 
 	// client requests: unique Put values
-	issued := make([]int, c+1)
+	issued := make([]int, nClients+1)
 	uniq := 0
 	pending := map[int]*Op{} // client -> op in flight
 	elections := 0
@@ -125,6 +133,9 @@ func Run(w *sim.World, opt Options) *Outcome {
 	final, finalReading := false, false
 	finalQ := map[int][]tla.Value{}
 	r.NextReq = func(k int) (tla.Value, bool) {
+		if k == reader && !final {
+			return tla.Value{}, false
+		}
 		if final {
 			if q := finalQ[k]; len(q) > 0 {
 				return q[0], true // taken off the queue when the request step commits
@@ -558,7 +569,8 @@ func Run(w *sim.World, opt Options) *Outcome {
 		finalOld = 0
 		r.Isolated = nil
 		for i, key := range keys {
-			cl := 1 + i%c
+			cl := reader
+			_ = i
 			finalQ[cl] = append(finalQ[cl], tla.MakeRecord([]tla.RecordField{{Key: S("type"), Value: S("get")}, {Key: S("key"), Value: S(key)}}))
 		}
 		finalReading = true
@@ -590,12 +602,7 @@ func Run(w *sim.World, opt Options) *Outcome {
 		startFinalReads()
 	}
 	finalDone := func() bool {
-		for k := 1; k <= c; k++ {
-			if !finalReading || len(finalQ[k]) > 0 || pending[k] != nil {
-				return false
-			}
-		}
-		return true
+		return finalReading && len(finalQ[reader]) == 0 && pending[reader] == nil
 	}
 	for out.Steps = 0; ; out.Steps++ {
 		if out.Steps >= max {
